@@ -70,7 +70,7 @@ def gen_call(lib, k, call):
             actual.append(lit(args[n], T))
         elif kd == "implied":
             actual.append("(%s)%d" % (ir.TYPES[T]["c"], len(args[p["of"]])))
-        elif kd == "cls_cptr":
+        elif kd in ("cls_cptr", "cls_cref", "cls_ref"):
             actual.append(call["arg_objs"][n])
         elif kd in ("ptr_in", "ptr_inout", "ref_inout"):
             L.append("    %s %s = %s;" % (ir.TYPES[T]["c"], vn, lit(args[n], T)))
